@@ -320,7 +320,7 @@ def C16(run):
     q = run.tier == "quick"
     run.model_check("MCWorker", "MCWorker.cfg", workers=1)
     run.model_check("MCWorker", "MCWorker_transient.cfg", workers=1)
-    _system_trace(run, "C16:", "faults", n=(5 if q else 150))
+    _system_trace(run, "C16:", "faults", n=(8 if q else 150))
     run.cov["rule"] = ("fault scenarios: per generated program, production runs on a cold cache with 1..3 transient faults placed on random "
                        "ProcessRange calls of the request (worker unavailable before the call, stream dropped mid-way, service overloaded, "
                        "connection lost after the job wrote its files) and, in both modes, a deterministic failure of the source mapper at a "
